@@ -265,7 +265,8 @@ def run(ctx, obl):
     res.extra["option_sequences_executed"] = sum(c["nseq"] for c in cases)
     res.rule = ("struct trees as in C02 with def= on about half the scalar fields, -short on/off; for each struct ALL option sequences up to "
                 "length 4 (k<=3 options) / 3 (k<=5) / 2 (k<=9) plus 40 random sequences up to length 6, executed through shoot.NewWith and through "
-                "T.With on a receiver whose every leaf was dirtied; every leaf read back. non-trivial = struct with a default and >1 sequence")
+                "T.With on a receiver whose every leaf was dirtied; every leaf read back. non-trivial = struct with a default and >1 sequence. "
+                "One TEST leg without a model: With and NewWith on types that embed a type with defaults must agree (promoted SetDefault)")
     res.assumptions = ["Go selector semantics for `t.name = v` (validated by execution)", "reflection/unsafe reads and writes of unexported fields"]
     return res
 
